@@ -29,6 +29,9 @@ type alTable struct {
 	Kind  string  `json:"kind"`
 	Alpha []int   `json:"alpha"` // sorted, includes 255 (Gap)
 	Es    [][]int `json:"es"`    // [x, y, score], sorted by (x, y)
+	// EditOf > 0: this table is table EditOf-1 EDITED IN PLACE (the same Go map object with some values overwritten),
+	// at the moment the first call that uses it is made: a caller may tune a matrix between calls
+	EditOf int `json:"editof"`
 }
 
 type alCase struct {
@@ -224,6 +227,10 @@ func runAlignPlan(p *alPlan, out string) error {
 	snaps := make([]align.SubstitutionMatrix, len(p.Tables))
 	for i := range p.Tables {
 		t := &p.Tables[i]
+		if t.EditOf > 0 { // materialised lazily, in place, when its first call comes (below)
+			tw.emit(map[string]any{"op": "table", "name": t.Name, "kind": t.Kind, "alpha": t.Alpha, "es": t.Es})
+			continue
+		}
 		m, err := alMaterialize(t)
 		if err != nil {
 			return err
@@ -249,6 +256,21 @@ func runAlignPlan(p *alPlan, out string) error {
 	for _, c := range p.Cases {
 		if c.T < 0 || c.T >= len(ms) || (c.Op != "global" && c.Op != "local") {
 			return fmt.Errorf("bad case %+v", c)
+		}
+		if t := &p.Tables[c.T]; t.EditOf > 0 && ms[c.T] == nil {
+			m := ms[t.EditOf-1]
+			if m == nil {
+				return fmt.Errorf("table %d edits table %d before it exists", c.T, t.EditOf-1)
+			}
+			for _, e := range t.Es {
+				m[[2]byte{byte(e[0]), byte(e[1])}] = float64(e[2])
+			}
+			ms[c.T] = m
+			snap := make(align.SubstitutionMatrix, len(m))
+			for k, v := range m {
+				snap[k] = v
+			}
+			snaps[c.T] = snap
 		}
 		tw.emit(alignCall(c.Op, unints(c.A), unints(c.B), ms[c.T], snaps[c.T], c.T+2))
 	}
@@ -471,6 +493,31 @@ func buildAlignPlan(prop string) (*alPlan, error) {
 		for _, a := range s2 {
 			for _, b := range s2 {
 				pb.call(t, a, b)
+			}
+		}
+	}
+	// F1b: the same matrix object tuned in place between calls (a gap-cost sweep): every pair up to length 3 over 2 letters,
+	// the second of which is the NUL byte (zero values of anything keyed by a byte)
+	lz := []byte{alPickLetters(r, 1)[0], 0}
+	if lz[0] == 0 {
+		lz[0] = 'z'
+	}
+	sz := alAllStrings(lz, 3)
+	for i, o := range opens(2 * mult) {
+		base := alGenMatrix(r, fmt.Sprintf("tuned-%d-a", i), lz, alMatOpts{sym: i%2 == 0, open: o})
+		t := pb.table(base)
+		for _, a := range sz {
+			for _, b := range sz {
+				pb.call(t, a, b)
+			}
+		}
+		// same keys, other scores (gap-open stays inside the property's domain), written into the same map object
+		edited := alGenMatrix(r, fmt.Sprintf("tuned-%d-b", i), lz, alMatOpts{sym: i%2 == 0, open: o})
+		edited.EditOf = t + 1
+		t2 := pb.table(edited)
+		for _, a := range sz {
+			for _, b := range sz {
+				pb.call(t2, a, b)
 			}
 		}
 	}
